@@ -39,7 +39,7 @@ COLS = [
 COLMAP = {c[0]: c for c in COLS}
 
 _BASE = {
-    "runs": {"quick": 700, "thorough": 60000},
+    "runs": {"quick": 700, "thorough": 40000},
     "wall": {"quick": 600, "thorough": 7200},
     "chunk": 10,
     "level": "exploration",
